@@ -111,6 +111,9 @@ type Runner struct {
 	fullLog  bool
 }
 
+// otherSrcPort is a counterparty port identifier different from Noble's "transfer".
+const otherSrcPort = "xfer-v2"
+
 func (r *Runner) packet(in *Input) (channeltypes.Packet, map[string]any) {
 	w := r.w
 	w.seq++
@@ -134,9 +137,9 @@ func (r *Runner) packet(in *Input) (channeltypes.Packet, map[string]any) {
 		data = d.GetBytes()
 	}
 	srcPort := "transfer"
-	if in.Dn == "OTHERPORT" {
-		// the denom carries another port; the packet itself still arrives on the transfer port
-		srcPort = "transfer"
+	if in.Dn == "SRCPORT" || in.Dn == "RETPORT" {
+		// the counterparty's port is not called "transfer" (the Noble end still is)
+		srcPort = otherSrcPort
 	}
 	p := channeltypes.NewPacket(data, w.seq, srcPort, w.cpChanOf[in.Chan], "transfer", w.chanOf[in.Chan],
 		clienttypes.NewHeight(1, 1000), 0)
